@@ -51,21 +51,53 @@ func parse(b []byte) []G {
 	return gs
 }
 
+// blockedStates are the wait reasons in which a goroutine stays until some
+// other goroutine (or the caller) acts.  Everything else — running, runnable,
+// syscall, sleep, preempted, "GC assist wait", a stack copy, ... — counts as
+// "may still make progress by itself".
+var blockedStates = map[string]bool{
+	"chan receive":            true,
+	"chan send":               true,
+	"chan receive (nil chan)": true,
+	"chan send (nil chan)":    true,
+	"select":                  true,
+	"select (no cases)":       true,
+	"semacquire":              true,
+	"sync.Mutex.Lock":         true,
+	"sync.RWMutex.Lock":       true,
+	"sync.RWMutex.RLock":      true,
+	"sync.Cond.Wait":          true,
+	"sync.WaitGroup.Wait":     true,
+	"IO wait":                 true,
+	"finalizer wait":          true,
+	"GC worker (idle)":        true,
+	"GC sweep wait":           true,
+	"GC scavenge wait":        true,
+	"force gc (idle)":         true,
+}
+
 // busy reports whether g may still make progress by itself.
 func busy(g G) bool {
-	switch g.State {
-	case "running", "runnable":
-		return true
-	case "syscall":
-		/* The signal-receiving goroutine sits in a syscall forever. */
-		if strings.Contains(g.Frames, "os/signal.signal_recv") {
-			return false
-		}
-		return true
-	case "sleep":
+	/* A goroutine inside the allocator or starting a collection is only
+	waiting for the runtime (e.g. for the world semaphore this very dump
+	holds), whatever its wait reason says. */
+	if strings.Contains(g.Frames, "runtime.mallocgc(") || strings.Contains(g.Frames, "runtime.gcStart(") ||
+		strings.Contains(g.Frames, "runtime.gcAssistAlloc") || strings.Contains(g.Frames, "runtime.stopTheWorld") {
 		return true
 	}
-	return false
+	/* A bare "semacquire" is a runtime-internal semaphore unless it comes
+	from package sync. */
+	if "semacquire" == g.State && !strings.Contains(g.Frames, "sync.runtime_Semacquire") {
+		return true
+	}
+	if blockedStates[g.State] {
+		return false
+	}
+	/* The signal-receiving goroutine sits in a syscall forever. */
+	if "syscall" == g.State && strings.Contains(g.Frames, "os/signal.signal_recv") {
+		return false
+	}
+	return true
 }
 
 // ExtraIdle, if not nil, reports goroutines which are to be treated as
